@@ -280,6 +280,7 @@ CHECKS['C14'] = dict(
     units=[
         U('proc', 'TestVerifC14_Sessions', q(320, 16, cap=900), q(6400, 16, cap=3000), needs_fzf=True),
         U('proc', 'TestVerifC14_PreviewTempFileAtExit', q(320, 16, cap=900), q(6400, 16, cap=3000), needs_fzf=True),
+        U('proc', 'TestVerifC14_Regress', q(16, 4, cap=300), q(64, 8, cap=600), needs_fzf=True),
     ])
 
 CHECKS['C15'] = dict(
